@@ -50,7 +50,8 @@ else:
     if run is None:
         tests = re.findall(r"^func (Test\w+)\(", src, re.M)
         run = "^(" + "|".join(tests) + ")$" if tests else "."
-    democmd = "go test -count=1 -run '%s' ./%s/" % (run, pkgdir) if pk != "main" else "go run ./%s" % pkgdir
+    tags = ("-tags %s " % opt("--demotags")) if opt("--demotags") else ""
+    democmd = "go test -count=1 %s-run '%s' ./%s/" % (tags, run, pkgdir) if pk != "main" else "go run ./%s" % pkgdir
 res["demo_cmd"] = democmd
 # 1. demo on unchanged tree
 rc0, out0 = sh(democmd, wt)
